@@ -49,6 +49,9 @@ pub fn alphabet(thorough: bool) -> Vec<Op> {
         RowsHidden(0, 2, 3, true),
         ColsHidden(0, 2, 2, true),
         Paste(0, 1, 1, 2, 2, 0, 3, 3, false),
+        RowsHidden(0, 1, 1, true),
+        ColsHidden(0, 1, 1, true),
+        PasteStylesHere,
         Undo,
         Redo,
     ];
@@ -64,8 +67,8 @@ pub fn alphabet(thorough: bool) -> Vec<Op> {
             ExpandRange(s("ArrowRight")),
             NavEdge(0),
             NavEdge(2),
-            RowsHidden(0, 1, 1, true),
-            ColsHidden(0, 1, 1, true),
+            RowsHidden(0, 1, 2, true),
+            ColsHidden(0, 1, 2, true),
             PasteStyles(0, 2, 2, 2, 2),
             Paste(0, 1, 1, 1, 1, 1, 2, 2, true),
             InsertRows(0, 1, 1),
